@@ -528,7 +528,7 @@ def gen_case(rng, tag, length, raise_p=0.5, soup=False):
             ops.append("ap.del %d %s" % (k, n))
             if n in have:
                 sh.l[k] = [e for e in sh.l[k] if e[0] != n]
-        elif r < 0.96:
+        elif r < 0.94:
             ns = some_names(k)
             ops.append("ap.dels %d %s" % (k, " ".join(ns)))
             for n in ns:
@@ -536,9 +536,14 @@ def gen_case(rng, tag, length, raise_p=0.5, soup=False):
                     sh.l[k] = [e for e in sh.l[k] if e[0] != n]
                 else:
                     break
-        else:
+        elif r < 0.975:
             ops.append("ap.reset %d" % k)
             sh.l[k] = []
+        else:
+            j = apreg()
+            ops.append("%s %d %d" % (rng.choice(["ap.copy", "ap.assign"]), k, j))
+            sh.l[j] = [list(e) for e in sh.l[k]]
+            sh.pre[j] = sh.pre[k]
 
     def op_ns():
         k = apreg()
@@ -712,6 +717,13 @@ def directed_owner(rng):
             for i in range(6):
                 ops.append("ap.at 5 %d" % i)
             ops.append("ap.size 5")
+            # a copy of the owner (copy constructor, then assignment back): independent, same prefix
+            ops.append("ap.copy 5 4")
+            ops.append("ap.setv 4 %s %d" % (shorts[1], inside(rng, cons[1])))
+            ops.append("ap.getv 5 %s" % shorts[1])
+            ops.append("ap.setv 5 %s %d" % (shorts[2], inside(rng, cons[2])))
+            ops.append("ap.assign 5 4")
+            ops.append("ap.names 4")
             ops.append("ap.deli 5 %d" % rng.randrange(6))
             ops.append("ap.del 5 %s%s" % (pre, shorts[1]))
             ops.append("ap.dels 5 %s%s zz %s" % (pre, shorts[2], shorts[0]))
@@ -843,10 +855,75 @@ def directed_misc(rng):
     return cases
 
 
+def directed_listeners(rng, count):
+    """parameters that carry listeners (audit F1): a list with 1-3 mirror listeners between its own
+    parameters (chains and cycles included), then copies / sub-lists / assignments of it and writes
+    through the original and through the copies, single and bulk; only the operations that have a
+    listener-aware model step are used after the first `listen`"""
+    cases = []
+    for n in range(count):
+        ops = []
+        size = rng.randint(2, 5)
+        names = rng.sample(NAMES, size)
+        cons = [rng.choice(CONS) if rng.random() < 0.5 else "-" for _ in names]
+        for nm, c in zip(names, cons):
+            ops.append("add 0 %s %d %s" % (nm, inside(rng, c), c))
+        if rng.random() < 0.3:
+            ops.append("copy 0 2")                    # a copy taken *before* any listener exists
+        for _ in range(rng.randint(1, 3)):
+            a, b = rng.sample(names, 2)
+            ops.append("listen 0 %s %s" % (a, b))
+        if rng.random() < 0.1:
+            ops.append("listen 0 %s zz" % names[0])   # unknown target
+        held = {0: list(names)}
+        if ops.count("copy 0 2"):
+            held[2] = list(names)
+        for _ in range(rng.randint(4, 14)):
+            r = rng.random()
+            k = rng.choice(sorted(held))
+            if r < 0.3 and held[k]:
+                nm = rng.choice(held[k])
+                c = cons[names.index(nm)] if nm in names else "-"
+                q = inside(rng, c) if rng.random() < 0.8 else rng.randint(-16, 20)
+                ops.append("setv %d %s %d" % (k, nm, q))
+            elif r < 0.45:
+                j = rng.choice([1, 2, 3])
+                ops.append("%s %d %d" % (rng.choice(["copy", "clone", "assign"]), k, j))
+                held[j] = list(held[k])
+            elif r < 0.55 and held[k]:
+                j = rng.choice([1, 2, 3])
+                ns = rng.sample(held[k], rng.randint(1, len(held[k])))
+                if rng.random() < 0.15:
+                    ns.append("zz")
+                ops.append("subn %d %d %s" % (k, j, " ".join(ns)))
+                if "zz" not in ns:
+                    held[j] = ns
+            elif r < 0.75 and held[k]:
+                # a bulk update from a fresh source in register 4
+                ops.append("reset 4")
+                for nm in rng.sample(held[k], rng.randint(1, len(held[k]))):
+                    c = cons[names.index(nm)] if nm in names else "-"
+                    q = inside(rng, c) if rng.random() < 0.85 else rng.randint(-16, 20)
+                    ops.append("add 4 %s %d -" % (nm, q))
+                ops.append("setvs %d 4" % k)
+            elif r < 0.85 and held[k]:
+                nm = rng.choice(held[k])
+                ops.append(rng.choice(["getv %d %s", "param %d %s", "which %d %s"]) % (k, nm))
+            elif r < 0.92 and held[k]:
+                nm = rng.choice(held[k])
+                ops.append("del %d %s" % (k, nm))
+                held[k] = [x for x in held[k] if x != nm]
+            else:
+                ops.append("names %d" % k)
+        cases.append(["case listeners%d" % n] + ops)
+    return cases
+
+
 def generate(seed, tier):
     rng = random.Random(seed)
     cases = directed(rng)
     cases += directed_assign(rng) + directed_owner(rng) + directed_delis(rng) + directed_ns(rng) + directed_misc(rng)
+    cases += directed_listeners(rng, 600 if tier == "thorough" else 120)
     nrand = 30000 if tier == "thorough" else 2500
     for i in range(nrand):
         cases.append(gen_case(rng, "rnd%d" % i, rng.randint(12, 60)))
@@ -915,8 +992,14 @@ def coverage_extra(cases, answers):
     shared = 0
     total = 0
     per_op = {}
+    ante = {}
+
+    def hit(key):
+        ante[key] = ante.get(key, 0) + 1
+
     for c, a in zip(cases, answers):
         prev = [[] for _ in range(NREG)]
+        prev_pre = [""] * NREG
         raised_before = False
         k = 0
         for line in c[1:]:
@@ -977,9 +1060,52 @@ def coverage_extra(cases, answers):
                         cl = _culprit(op, tgt, src)
                         if cl:
                             bump("culprit_" + cl)
+            # --- how often the antecedent of a guarded clause was true (audit F4)
+            uniq = [len(set(e[0] for e in es)) == len(es) for es in prev]
+            if not all(uniq):
+                hit("ops_executed_while_some_register_has_duplicated_names")
+            if kk is not None and kk < NREG:
+                if op == "ap.ns":
+                    hit("ap.ns")
+                    others = set(e[3] for j, es in enumerate(prev) if j != kk for e in es)
+                    guard = all(e[0].startswith(prev_pre[kk]) for e in prev[kk]) and not any(e[3] in others for e in prev[kk])
+                    if guard and all(uniq):
+                        hit("ap.ns: nsGuard true (names_unique_namespace_partial judged)")
+                    if st is not None and not all(len(set(e[0] for e in es)) == len(es) for es in st) and all(uniq):
+                        hit("ap.ns: names duplicated by the call (known finding)")
+                if op in ("subi", "shsubi", "delis"):
+                    idx = t[3:] if op != "delis" else t[2:]
+                    if len(set(idx)) == len(idx) and uniq[kk]:
+                        hit(op + ": repeated-free indices, unique names (exactness judged)")
+                    else:
+                        hit(op + ": repeated index or duplicated names (only the general clauses judged)")
+                if op in ("subn", "shsubn", "dels", "ap.dels"):
+                    ns = t[3:] if op in ("subn", "shsubn", "dels") else t[2:]
+                    hit(op + (": repeated-free names" if len(set(ns)) == len(ns) else ": repeated name"))
+                if op in ("ap.matchvs", "matchvs", "matchvs0", "setvs", "ap.setvs", "testvs", "setps", "matchps") and len(t) > 2:
+                    try:
+                        jj = int(t[2])
+                    except ValueError:
+                        jj = None
+                    if jj is not None and jj < NREG:
+                        if not uniq[jj]:
+                            hit(op + ": source names duplicated (exactness not judged)")
+                        elif is_exc:
+                            hit(op + ": raised")
+                        elif op == "ap.matchvs":
+                            fired = r.split(" ;")[1].strip() if len(r.split(" ;")) > 1 else "-"
+                            hit("ap.matchvs: succeeded, " + ("nothing to notify" if fired == "-" else "non-empty notification judged"))
+                        else:
+                            hit(op + ": succeeded, exact effect judged")
             if st is not None:
                 prev = st
+                segs = r.split(" ;")[2:]
+                for j, sg in enumerate(segs):
+                    for tok in sg.split():
+                        if tok.startswith("pre="):
+                            prev_pre[j] = "" if tok[4:] == "-" else tok[4:]
             raised_before = raised_before or is_exc
     return {"raised_by_kind": kinds, "list_size_histogram": {str(k): v for k, v in sorted(sizes.items())},
             "answers_with_shared_objects_fraction": round(shared / total, 4) if total else 0.0,
-            "op_states": {k: per_op[k] for k in sorted(per_op)}}
+            "op_states": {k: per_op[k] for k in sorted(per_op)},
+            "clause_antecedents": {k: ante[k] for k in sorted(ante)}}
